@@ -72,6 +72,19 @@ impl NodeRig {
         r
     }
 
+    /// Like `run`, for rigs that do no loopback I/O: never waits for the I/O driver.
+    pub fn run_no_io<T: Send + 'static>(&mut self, tag: &str, fut: impl Future<Output = T> + Send + 'static) -> Option<T> {
+        let slot: Arc<Mutex<Option<T>>> = Arc::new(Mutex::new(None));
+        let s2 = slot.clone();
+        let _id = self.d.exec.add(tag, async move {
+            let r = fut.await;
+            *s2.lock().unwrap() = Some(r);
+        });
+        self.d.settle();
+        let r = slot.lock().unwrap().take();
+        r
+    }
+
     fn node_store(&mut self) -> &mut ant_networking::NodeRecordStore {
         match self.d.store() {
             UnifiedRecordStore::Node(s) => s,
